@@ -122,7 +122,45 @@ func runOpenHist(h *OpenHist) []OpenCase {
 			}
 		}
 	}
+	// several newcomers brought in by ONE call (UpdateTablePlayers with two or three arrivals), on seats of their own choice or any
+	br := NewRNG(h.Seed ^ 0xb47c0ffe) // a stream of its own: the other draws of a history stay what they were
+	arriveBatch := func(k int) {
+		fs := freeSeats()
+		if len(fs) < k {
+			return
+		}
+		br.Shuffle(len(fs), func(i, j int) { fs[i], fs[j] = fs[j], fs[i] })
+		var joins []pt.JoinPlayer
+		var ids []int
+		for i := 0; i < k; i++ {
+			seat := fs[i]
+			if br.Chance(1, 3) {
+				seat = -1
+			}
+			joins = append(joins, pt.JoinPlayer{PlayerID: pid(next), RedeemChips: int64(30 + br.Intn(1500)), Seat: seat})
+			ids = append(ids, next)
+			next++
+		}
+		if _, err := d.te.UpdateTablePlayers(joins, nil); err == nil {
+			ab := d.Abs()
+			for _, id := range ids {
+				for _, p := range ab.Players {
+					if p.ID == id {
+						fresh[id] = ab.SM.Init
+						waiting[id] = ab.SM.Init && between(ab, p.Seat)
+					}
+				}
+				if !br.Chance(1, 6) {
+					d.JoinAndSettle(pid(id))
+				}
+			}
+		}
+	}
 	n0 := 2 + r.Intn(h.Max-1)
+	if br.Chance(1, 4) && n0 >= 3 {
+		arriveBatch(n0 - 1) // most of the first players come in one call
+		n0 = 1
+	}
 	for i := 0; i < n0; i++ {
 		arrive(!r.Chance(1, 8))
 	}
@@ -204,6 +242,9 @@ func runOpenHist(h *OpenHist) []OpenCase {
 			// churn between hands
 			if r.Chance(1, 3) {
 				arrive(!r.Chance(1, 6))
+			}
+			if br.Chance(1, 5) {
+				arriveBatch(2 + br.Intn(2))
 			}
 			if (r.Chance(1, 6) || (h.Churn && r.Chance(1, 2))) && len(a.Players) > 2 {
 				p := a.Players[r.Intn(len(a.Players))]
